@@ -60,6 +60,16 @@ func vMergeCfg(prefix, idBase string, nDocs int, second bool, focus string) gCfg
 	if vParam("lite", 0) == 1 {
 		fields[0].terms = []string{""}
 	}
+	if vParam("comp", 0) == 1 {
+		// a composite field in every input: its locations name the (always present) field f, whose id differs
+		// between the inputs and the merged segment when the second input has the extra field
+		fields[0].always = true
+		fields = append(fields, gField{name: "c", terms: []string{"b"}, tv: true, maxLocs: 1, comp: true, locField: "f"})
+		if second {
+			fields = append(fields, gField{name: "a0", terms: []string{"a"}, dv: true})
+		}
+		return gCfg{prefix: prefix, idBase: idBase, nDocs: nDocs, wide: -1, noFx: true, fields: fields}
+	}
 	if second {
 		fields = append(fields, gField{name: "g", terms: []string{"a"}, dv: true, shape: true}) // (a geo-shape field: its shape is an extra doc-value term)
 	}
